@@ -24,6 +24,30 @@ def step (_ : Unit) (op impl : String) : Unit × DrvOut :=
     match Hex.decode t, Hex.decode q, parseMatches m with
     | some t, some q, some m => ((), verdict (resolveSource t m q) impl)
     | _, _, _ => ((), { model := "bad-op" })
+  | ["hnd", t, m, evs] =>
+    -- one history on one real staticsources.Handler; events `a.<query>.<retries>.<reload template or ->`
+    -- separated by `/`; answer: runs of one activation joined by `,`, activations by `|`
+    let acts := (evs.splitOn "/").mapM fun e =>
+      match e.splitOn "." with
+      | ["a", q, n, r] => do
+        let q ← Hex.decode q
+        let n ← n.toNat?
+        let r ← if r == "_" then some none else (Hex.decode r).map some
+        pure ({ query := q, retries := n, reload := r } : Act)
+      | _ => none
+    match Hex.decode t, parseMatches m, acts with
+    | some t, some m, some acts =>
+      let want := histRuns t m acts
+      let model := "|".intercalate (want.map fun rs => ",".intercalate (rs.map Hex.encode))
+      let got := (impl.splitOn "|").map fun a => (a.splitOn ",")
+      let wantS := want.map fun rs => rs.map Hex.encode
+      let spec :=
+        if got == wantS then "ok"
+        else
+          let k := ((List.range wantS.length).find? fun i => got[i]? != wantS[i]?).getD 0
+          s!"FAIL activation {k + 1}: the source was not given the template with the placeholders replaced by the groups and by the query of THAT activation (expected {",".intercalate (wantS.getD k [])}, got {",".intercalate (got.getD k [])})"
+      ((), { model, spec })
+    | _, _, _ => ((), { model := "bad-op" })
   | ["dst", t, p, m] =>
     match Hex.decode t, Hex.decode p, parseMatches m with
     | some t, some p, some m => ((), verdict (resolveDest t p m) impl)
